@@ -627,7 +627,9 @@ def run_property(prop, tier, jobs, assumptions, level_text, keep=False, only=Non
                         inp = extract_input(tr["out"], job.in_max, wname)
                         rep = native_replay(ctx, job, inp, "witness")
                         out = rep.get("out") or ""
-                        agrees = rep.get("built") and "VP_REACHED: end of harness" in out and "VP_ASSERT_FAILED" not in out and "VP_ASSUME_VIOLATED" not in out and not re.search(r"ERROR: AddressSanitizer|runtime error:", out)
+                        # assertions that belong to another property's check of the same harness are not this query's business
+                        own_failed = [l for l in re.findall(r"VP_ASSERT_FAILED: (.*)", out) if not (re.match(r"(C\d\d):", l) and re.match(r"(C\d\d):", l).group(1) != prop)]
+                        agrees = rep.get("built") and "VP_REACHED: end of harness" in out and not own_failed and "VP_ASSUME_VIOLATED" not in out and not re.search(r"ERROR: AddressSanitizer|runtime error:", out)
                         rec["witness_replayed_natively"] = bool(agrees)
                         if not agrees:
                             inconclusive.append((job, "native replay of the solver's witness disagrees with the encoding: " + (out or rep.get("log", ""))[-300:]))
